@@ -11,6 +11,7 @@ Definition parent_before (j : nat) (nd : node) : Prop :=
   match nd with
   | Src _ => True
   | Trans _ p | Window _ _ p | Stateful _ p => (p < j)%nat
+  | Union p1 p2 => (p1 < j)%nat /\ (p2 < j)%nat
   end.
 
 (* what stream i does in a tick when its parent has already been stepped: no recursion *)
@@ -22,6 +23,7 @@ Definition direct (g : list node) (i : nat) (t : Z) (st : gstate) : gstate * opt
       | Trans f p => let '(n2, lg, e2) := trans_post f t (rdd_of st p) ns in (add_log lg (put i n2 st), e2)
       | Window w s p => let '(n2, e2) := window_post w s (rdd_of st p) (set_time t ns) in (put i n2 st, e2)
       | Stateful u p => let '(n2, e2) := stateful_post u t (rdd_of st p) ns in (put i n2 st, e2)
+      | Union p1 p2 => let '(n2, e2) := union_post t (rdd_of st p1) (rdd_of st p2) ns in (put i n2 st, e2)
       end
   | _, _ => (st, Some "BadGraph"%string)
   end.
@@ -36,17 +38,23 @@ Fixpoint direct_nodes (g : list node) (is : list nat) (t : Z) (st : gstate) : gs
 
 Definition well_formed (g : list node) : Prop := forall j nd, nth_error g j = Some nd -> parent_before j nd.
 
-Lemma step_eq_direct F g i t st nd ns :
-  nth_error g i = Some nd -> nth_error (gnodes st) i = Some ns -> ntime ns < t ->
+(* a parent that has already been stepped at time t *)
+Definition ready (g : list node) (t : Z) (st : gstate) (p : nat) : Prop :=
+  exists ndp nsp, nth_error g p = Some ndp /\ nth_error (gnodes st) p = Some nsp /\ t <= ntime nsp.
+Definition parents_ready (g : list node) (t : Z) (st : gstate) (nd : node) : Prop :=
   match nd with
   | Src _ => True
-  | Trans _ p | Window _ _ p | Stateful _ p =>
-      exists ndp nsp, nth_error g p = Some ndp /\ nth_error (gnodes st) p = Some nsp /\ t <= ntime nsp
-  end ->
+  | Trans _ p | Window _ _ p | Stateful _ p => ready g t st p
+  | Union p1 p2 => ready g t st p1 /\ ready g t st p2
+  end.
+
+Lemma step_eq_direct F g i t st nd ns :
+  nth_error g i = Some nd -> nth_error (gnodes st) i = Some ns -> ntime ns < t ->
+  parents_ready g t st nd ->
   step (S (S F)) g i t st = direct g i t st.
 Proof.
-  intros Hg Hs Ht Hp. unfold direct. rewrite Hg, Hs.
-  destruct nd as [q|f p|w s p|u p].
+  intros Hg Hs Ht Hp. unfold direct. rewrite Hg, Hs. unfold parents_ready, ready in Hp.
+  destruct nd as [q|f p|w s p|u p|p1 p2].
   - apply (step_src_go _ g i t st q ns Hg Hs Ht).
   - destruct Hp as (ndp & nsp & H1 & H2 & H3).
     rewrite (step_trans_go F g i t st f p ns ndp nsp Hg Hs Ht H1 H2 H3), (rdd_of_nth _ _ _ H2). reflexivity.
@@ -54,6 +62,9 @@ Proof.
     rewrite (step_window_go F g i t st w s p ns ndp nsp Hg Hs Ht H1 H2 H3), (rdd_of_nth _ _ _ H2). reflexivity.
   - destruct Hp as (ndp & nsp & H1 & H2 & H3).
     rewrite (step_stateful_go F g i t st u p ns ndp nsp Hg Hs Ht H1 H2 H3), (rdd_of_nth _ _ _ H2). reflexivity.
+  - destruct Hp as [(nd1 & ns1 & A1 & A2 & A3) (nd2 & ns2 & B1 & B2 & B3)].
+    rewrite (step_union_go F g i t st p1 p2 ns nd1 ns1 nd2 ns2 Hg Hs Ht A1 A2 A3 B1 B2 B3),
+            (rdd_of_nth _ _ _ A2), (rdd_of_nth _ _ _ B2). reflexivity.
 Qed.
 
 (* direct touches stream i only, and leaves it with guard time t (also when it raises) *)
@@ -64,7 +75,7 @@ Lemma direct_effect g i t st nd ns :
   exists ns', nth_error (gnodes (fst (direct g i t st))) i = Some ns' /\ ntime ns' = t.
 Proof.
   intros Hg Hs. unfold direct. rewrite Hg, Hs.
-  destruct nd as [q|f p|w s p|u p].
+  destruct nd as [q|f p|w s p|u p|p1 p2].
   - cbn [fst]. split; [apply put_length|]. split; [intros j Hj; apply nth_put_neq; congruence|].
     eexists. split; [apply (nth_put_eq _ _ _ _ Hs)|]. now rewrite src_pop_time.
   - pose proof (trans_post_time f t (rdd_of st p) ns) as Hp.
@@ -77,6 +88,10 @@ Proof.
     eexists. split; [apply (nth_put_eq _ _ _ _ Hs)|]. exact Hp.
   - pose proof (stateful_post_time u t (rdd_of st p) ns) as Hp.
     destruct (stateful_post u t (rdd_of st p) ns) as [n2 e2]. cbn [fst] in *.
+    split; [apply put_length|]. split; [intros j Hj; apply nth_put_neq; congruence|].
+    eexists. split; [apply (nth_put_eq _ _ _ _ Hs)|]. exact Hp.
+  - pose proof (union_post_time t (rdd_of st p1) (rdd_of st p2) ns) as Hp.
+    destruct (union_post t (rdd_of st p1) (rdd_of st p2) ns) as [n2 e2]. cbn [fst] in *.
     split; [apply put_length|]. split; [intros j Hj; apply nth_put_neq; congruence|].
     eexists. split; [apply (nth_put_eq _ _ _ _ Hs)|]. exact Hp.
 Qed.
@@ -99,16 +114,14 @@ Proof.
   assert (Ha : (a < length g)%nat) by lia.
   destruct (nth_error g a) as [nd|] eqn:Hg; [|apply nth_error_None in Hg; lia].
   destruct (nth_error (gnodes st) a) as [ns|] eqn:Hs; [|apply nth_error_None in Hs; lia].
-  assert (Hp : match nd with
-               | Src _ => True
-               | Trans _ p | Window _ _ p | Stateful _ p =>
-                   exists ndp nsp, nth_error g p = Some ndp /\ nth_error (gnodes st) p = Some nsp /\ t <= ntime nsp
-               end).
+  assert (Hready : forall p, (p < a)%nat -> ready g t st p).
+  { intros p Hpa. unfold ready.
+    destruct (nth_error g p) as [ndp|] eqn:E1; [|apply nth_error_None in E1; lia].
+    destruct (nth_error (gnodes st) p) as [nsp|] eqn:E2; [|apply nth_error_None in E2; lia].
+    exists ndp, nsp. repeat split; auto. apply (proj1 (HM p nsp E2)); lia. }
+  assert (Hp : parents_ready g t st nd).
   { pose proof (Hwf a nd Hg) as Hb.
-    destruct nd as [q|f p|w s p|u p]; auto; cbn in Hb;
-      (destruct (nth_error g p) as [ndp|] eqn:E1; [|apply nth_error_None in E1; lia]);
-      (destruct (nth_error (gnodes st) p) as [nsp|] eqn:E2; [|apply nth_error_None in E2; lia]);
-      exists ndp, nsp; repeat split; auto; apply (proj1 (HM p nsp E2)); lia. }
+    destruct nd as [q|f p|w s p|u p|p1 p2]; cbn in Hb |- *; auto. destruct Hb. split; auto. }
   rewrite (step_eq_direct F g a t st nd ns Hg Hs (proj2 (HM a ns Hs) (le_n a)) Hp).
   destruct (direct_effect g a t st nd ns Hg Hs) as (E1 & E2 & ns' & E3 & E4).
   destruct (direct g a t st) as [st1 e]. cbn [fst] in *.
